@@ -11,7 +11,7 @@
         differs from the parser's right-associative reading
      1  INTERSECT ALL / EXCEPT ALL (decided by membership instead of by counting)
    single SELECT
-     4  a subquery in the select list (never computed: NULL, or column 0 on the join path)
+     4  a subquery in the select list (never computed: NULL)
      5  EXISTS / IN (subquery) next to other conjuncts: the Filter is replaced by the join, the
         other conjuncts are dropped
      6  NOT IN (subquery) executed as a plain anti join (NULLs ignored)
